@@ -222,6 +222,20 @@ def run(prog, rep):
         f = sorted(fs, key=lambda x: x.id)[0]
         rep.touch(f)
         problems, hs = mapper_problems(prog, f)
+        # the target is written by one assignment from a finished conversion, never handed to a callee that may store into it and then
+        # throw (the policy then reports 'not loaded' / an error for a field that has already been changed)
+        from bsv.effects import classify_use
+        t_ = [n for n in f.walk() if n['k'] == 'CXXTryStmt'][0]
+        blk = child(t_, 'block')
+        for prm in [p_ for p_ in f.params if 't' in p_ and f.type(p_).rstrip().endswith('&') and not f.type(p_).startswith('const')
+                    and is_arith(f.type(p_))]:
+            for n in f.walk(blk):
+                if n['k'] == 'DeclRefExpr' and n.get('d') == prm['d']:
+                    use, info = classify_use(f, n)
+                    cal = (info[1] or {}).get('n') if isinstance(info, tuple) else None
+                    if use in ('escape', 'alias', 'addr') or (use == 'mutcall' and cal != 'operator='):
+                        problems.append('the load target "%s" is handed to %s inside the try block: it can be overwritten before the conversion '
+                                        'fails, and is then reported as not loaded / skipped by policy' % (prm.get('n'), cal or 'a reference'))
         site = q
         if problems:
             for p in problems:
